@@ -380,21 +380,24 @@ impl LogInnerManager {
         }
         let (index_dto, file_index_len, pop_index_count) =
             self.get_file_index_by_log_index(end_index)?;
-        let empty_data = vec![0u8, 1];
         if pop_index_count > 0 {
             for _i in 0..pop_index_count {
                 self.indexs.pop();
             }
             self.index_cursor -= file_index_len;
+            // clear the dropped index entries: whatever follows the cursor is read back on the next start
             self.index_file
                 .seek(SeekFrom::Start(self.index_cursor))
                 .await?;
-            self.index_file.write_all(&empty_data).await?;
+            self.index_file
+                .write_all(&vec![0u8; file_index_len as usize])
+                .await?;
             self.index_file
                 .seek(SeekFrom::Start(self.index_cursor))
                 .await?;
             self.index_file.flush().await?;
         }
+        let old_data_cursor = self.data_cursor;
         let current_index_count = end_index - index_dto.log_index;
         let (data_cursor, msg_count) = Self::move_to_index_by_count(
             &mut self.data_file,
@@ -406,10 +409,12 @@ impl LogInnerManager {
         self.data_cursor = data_cursor;
         self.msg_count = msg_count;
         self.current_index_count = current_index_count as u16;
+        // clear the removed records: a shorter record appended later must not be followed by their bytes
+        let removed_len = old_data_cursor.saturating_sub(self.data_cursor) as usize;
         self.data_file
             .seek(SeekFrom::Start(self.data_cursor))
             .await?;
-        self.data_file.write_all(&empty_data).await?;
+        self.data_file.write_all(&vec![0u8; removed_len]).await?;
         self.data_file
             .seek(SeekFrom::Start(self.data_cursor))
             .await?;
